@@ -284,6 +284,11 @@ where
         }
     }
 
+    // a line without any word (an empty item, possible with caller-split lines)
+    // at the end of a side has not been pushed yet
+    old_values.resize_with(old_slices.len(), Vec::new);
+    new_values.resize_with(new_slices.len(), Vec::new);
+
     let mut rv = Vec::new();
 
     for values in old_values {
